@@ -95,10 +95,12 @@ ASSUMPTIONS = [a for a in ASSUMPTIONS if not a.startswith("topic name, type and 
     "type matching is not varied (one type); the end-to-end partition scenarios assume the network abstraction of C16 (notes/w2b.md)"]
 LEVEL_TEXT += (" PARTITION part: the inline partition test is modelled in Model/Partition.lean (glob matcher = fnmatch_to_regex + regex folded "
                "together, validated pair by pair against the real translation + regex crate through a hook, and end to end on the simulator); "
-               "proved for all name lists: both sides reach the same verdict (C15_partition_symmetric), the empty list matches only the empty "
-               "list (C15_partition_empty_iff), on non-empty pattern-free lists the verdict is the DDS rule 'a common name' "
-               "(C15_partition_plain_partial), the executable glob matcher accepts exactly the declarative reading of a pattern (C15_partition_glob_spec); open finding D20 with Lean witnesses: [] does not match [\"\"] nor [\"*\"], a pattern is matched "
-               "against the other side's patterns, + is a regex quantifier.")
+               "proved for all name lists: both sides reach the same verdict (C15_partition_symmetric), the empty list gets exactly the verdict "
+               "of the list holding the empty name (C15_partition_empty_is_default; defect D20a, repaired by fixes/D20a.patch), on ALL pattern-free "
+               "lists the verdict is the DDS rule 'a common name' (C15_partition_plain), the executable glob matcher accepts exactly the "
+               "declarative reading of a pattern (C15_partition_glob_spec); regression witness C15_partition_empty_old_counterexample; open "
+               "findings with Lean witnesses: a pattern is matched against the other side's patterns (D20b), + is a regex quantifier (D20c: "
+               "two tests of the repository rely on it).")
 _run_rxo_part = run
 
 
